@@ -71,6 +71,39 @@ META = {
          "The 32 monomorphic instantiations are generated by macro in harness/src/tables.rs.", "5 (C35)"),
 }
 
+META.update({
+ "C01": ("TLC evaluates ImageSpec/LabelSpec of spec/Asm.tla (declarative placement + Isa!Encode) on the statements parsed by the real parser and compares with the object assembled by the real assembler (TV_Asm)",
+         "For every generated program the record carries the statement list the real parser returned, the source bytes and the projection of the assembled object (blocks, labels, relocation entries, line table). TLC computes, independently of the Rust encoder, the address of every statement (origin plus the sizes of the statements before it), its words (Isa!Encode after alias expansion, label operand = label address minus the address of the following word, .fill value/label address, .stringz bytes plus zero, .blkw reserved words) and the label table, and requires the image as a set of (address, word) pairs - hence nothing else defined - and the labels to be equal. The operational transcription Asm!Assemble (pass 1 / pass 2 as the code does them) is compared too, as conformance.",
+         "Statement lists come from the real parser (C03 decides the parser). Generated programs cover every opcode and alias, field-limit operands, offsets exactly at the 9/11-bit limits, 1-4 blocks from x0000 to ending at xFE00, with and without debug symbols, plus os.asm itself.", "5 (C01)"),
+ "C02": ("TLC evaluates WellFormed / ViolatedKinds of spec/Asm.tla (the five conditions of the statement as separate predicates) on the parsed statements of fault-injected programs and compares with the real assembler's verdict (TV_Asm)",
+         "Acceptance must coincide with WellFormed (labels and statements inside closed non-nested blocks; no key bound to two addresses, externals as address 0; label operands defined, not external in PC-relative position, offset fits; non-empty blocks disjoint, not reaching xFE00.., not wrapping), a rejection must carry a kind that names a violated condition, and a panic is a rejection of the record.",
+         "Which of several violated conditions is reported is left open, as in the statement.", "5 (C02)"),
+ "C17": ("TLC compares the projection of the object read back from BinaryFormat with the projection of the original for every object of the link sets and of single programs with exotic sources (TV_Asm)",
+         "serialize then deserialize through the real BinaryFormat for assembled files (with/without debug symbols, externals, relocation entries, .blkw, several blocks) and every intermediate and final link result; the reader must accept, the crate's own == must hold and blocks, labels with flags and source offsets, relocation entries, line table and source bytes must be equal.",
+         "The byte grammar is not transcribed into TLA+; the specification states what must be preserved.", "5 (C17/C18)"),
+ "C18": ("TLC compares the projection of the object read back from TextFormat with the projection of the original (TV_Asm), sources with quotes, backslashes, tabs, CRLF, control and non-ASCII characters, table dividers inside comments",
+         "As C17 through the real TextFormat; the single-program leg renders sources whose comments and strings contain ' | ', '====', '#', quotes, backslashes, NUL followed by digits, NEL/NBSP/ideographic space, emoji, CRLF and whitespace-only lines.",
+         "The text grammar is not transcribed into TLA+; the specification states what must be preserved.", "5 (C17/C18)"),
+ "C20": ("TLC validates every real link step against the statement of C20 written on abstract objects (Disjoint, LabelConflict, patched union, merged labels, pending relocations), compares all orders/bracketings, and compares the set result with the declarative result from the files' statements (TV_Asm + Linker)",
+         "Sets of 2-4 files linked by the real ObjectFile::link in every order and bracketing. Per step: success iff blocks disjoint and no label defined at two addresses; image = union with resolved .fill words replaced; labels/flags/pending relocations as stated. Across orders: same success and same (image, labels, flags, relocations). Per set: the same against what TLC computes from the parsed statements of the files.",
+         "Error kinds are compared with the operational Linker!Link as drift only.", "5 (C20)"),
+ "C21": ("TLC computes the external references (RelSpec) from the parsed statements and checks relocation entries, survival of the symbol table, UnresolvedExternal on load, and the patched word after linking, on real assemble/link/load results (TV_Asm)",
+         "Declaration before, inside and after the using blocks, with and without debug symbols; load_obj_file into a fresh simulator for every file and every link result with memory probed at every relocation address.",
+         "Loading is probed with default flags; C29 decides the rest of loading.", "5 (C21)"),
+ "C22": ("TLC checks per real link step of debug objects that every mapped address reads the same source line text as in the operand it came from and that every label span spells the label in the combined source (TV_Asm)",
+         "rev_lookup_line + source_info().read_line for every address of operands and result, get_label_source for every label; pairs, triples and some quadruples in every order and bracketing.",
+         "Inductive per link step.", "5 (C22)"),
+ "C23": ("TLC computes the expected answer of every label query from the parsed statements (LabelDefs of spec/Asm.tla) and compares with the real SymbolTable queries (TV_Asm)",
+         "lookup_label and get_label_source for every label in four spellings plus near-miss and absent names, rev_lookup_label for every recorded address and neighbours (membership), label_iter as a set with flags.",
+         "ASCII labels, as the property states.", "5 (C23)"),
+ "C24": ("TLC computes LineSpec (line of each memory-occupying statement -> its first address) from the parsed statements and source bytes and compares line_iter, lookup_line and rev_lookup_line of the real symbol table; injectivity checked (TV_Asm)",
+         "Every line up to count+2, every mapped address with neighbours and random addresses; label-only, comment, blank, .orig/.end/.external lines must map to nothing.",
+         "Line numbers are computed by TLC from the source bytes.", "5 (C24)"),
+ "C26": ("TLC checks the span lists of real assembler and linker errors: queries do not panic, non-empty, first() is the first, inside the source, label errors spell an offending label computed declaratively (TV_Asm)",
+         "All failing assemblies of fault-injected programs and all failing link steps; span(), iter(), first() under catch_unwind.",
+         "Link errors about blocks carry an empty list; only absence of panics is judged there.", "5 (C26)"),
+})
+
 def main():
     props = [json.loads(l) for l in open(os.path.join(ROOT, "properties.jsonl"))]
     done = sorted(check.CHECKS)
